@@ -49,6 +49,25 @@ def check(rep, tier, seed):
         if l in seen and seen[l] != a:
             bad.append((l, f"{seen[l]}  THEN  {a}", "the same call gave two different results in one process"))
         seen[l] = a
+    # reference tracking: "string and reference numbering always restarts with each call" - graph encodes and decodes
+    # (harness/src/graph.rs: store_ref_or_object / try_read_ref) issued twice, shuffled, in ONE process, where freed
+    # objects' addresses are reused by later calls; every answer must equal the answer of the same call alone
+    from . import c10
+    _, glines = c10.gen(seed + 18, "quick")
+    gsel = [glines[i] for i in sorted(rng.sample(range(len(glines)), 400 if tier == "quick" else 3000))]
+    alone = C.run_sharded(harness, "graph", gsel, wd, "galone", shards=16)      # small batches: the reference answers
+    gh = gsel + gsel
+    rng.shuffle(gh)
+    gp = os.path.join(wd, "ghist.cases")
+    C.write_lines(gp, gh)
+    gout = C.run_lines(harness, "graph", gp)
+    gmod = C.run_sharded(model, "graph", gsel, wd, "gmodel", shards=16)
+    ref = dict(zip(gsel, gmod))
+    dis += [(l, a, b) for l, a, b in zip(gsel, alone, gmod) if a != b]
+    for l, a in zip(gh, gout):
+        if a != ref[l]:
+            bad.append((l, a, "a reference-tracking call in a process that made other calls before differs from the same call alone"))
+    rep.coverage["reference_tracking_history"] = {"calls": len(gh), "distinct": len(gsel)}
     # (ii) contention: fresh processes in which 16 threads released by a barrier make the first use of the
     # same derived types (lazy metadata initialised under contention), each in its own order
     jobs = []
